@@ -32,7 +32,7 @@ ASSUMPTIONS = [
 ]
 COMPONENTS = {"real": ["Transmitter", "TradingEnv", "TradingEnvXY", "Exchange", "Broker", "State", "Feature", "sklearn transformers"],
               "harness": ["event-value perturbation", "recording observers"], "stub": []}
-PROBE_FLOORS = {"cut_on_first_step": 27, "cut_on_last_step": 30, "cut_in_middle": 80, "extra_events_in_latency_window_after_cut": 17,
+PROBE_FLOORS = {"xy_transformer_fitted_by_the_caller": 3, "cut_on_first_step": 27, "cut_on_last_step": 30, "cut_in_middle": 80, "extra_events_in_latency_window_after_cut": 17,
                 "fold_boundary_after_cut": 10, "window_straddles_cut": 100, "effective_perturbation": 114, "xy_twin": 12, "judged_on_second_environment_with_smaller_latency": 15, "custom_events_loaded_from_table": 25, "final_track_record_entry_compared": 800, "xy_second_environment_from_the_same_tables": 5, "xy_feature_rows_stamped_nanoseconds_after_the_cut": 6}
 
 PROFILE = {
@@ -287,15 +287,24 @@ def generate_xy(rng, i):
     acts = [[round(rng.uniform(-0.3, 0.5), 4) for _ in range(ny)] for _ in range(7)]
     if i % 5 == 2:
         tb["x_offset_ns"] = 500      # feature rows stamped half a microsecond after the price rows (nanosecond index)
-    return {"kind": "xy", "tables": tb, "kwargs": kw, "fold": None, "actions": acts, "np_seed": rng.randrange(2 ** 31),
-            "cut": tb["dates"][kcut], "pseed": rng.randrange(2 ** 31), "shared_first": rng.random() < 0.4}
+    sc = {"kind": "xy", "tables": tb, "kwargs": kw, "fold": None, "actions": acts, "np_seed": rng.randrange(2 ** 31),
+          "cut": tb["dates"][kcut], "pseed": rng.randrange(2 ** 31), "shared_first": rng.random() < 0.4}
+    if (i // 12) % 3 == 1 and kw["transformer"] is not None:
+        # the caller fits the transformer itself, on rows dated <= t, and hands over the fitted instance; transformer_end
+        # (documented as used only for an unfitted transformer) is left unset, so the reward scale is computed from the
+        # whole price table: only feature rows are rewritten in the twin
+        kw["transformer"] = "prefit:" + kw["transformer"]
+        kw["prefit_end"] = kw.pop("transformer_end")
+        sc["x_only"] = True
+        sc["shared_first"] = False
+    return sc
 
 
-def perturb_tables(tb, cut, pseed):
+def perturb_tables(tb, cut, pseed, x_only=False):
     prng = random.Random(pseed)
     out = copy.deepcopy(tb)
     for j, d in enumerate(out["dates"]):
-        if d <= cut:
+        if d <= cut or x_only:
             continue
         out["Y"][j] = [v * (1 + prng.uniform(-0.1, 0.1)) if v == v else v for v in out["Y"][j]]
         if out.get("rate") is not None:
@@ -315,7 +324,7 @@ def execute_xy(scenario):
             env, *_ = xy.make_env(scenario)
             base = xy.run_episode(env, scenario["actions"], np_seed=scenario["np_seed"])
             sc2 = copy.deepcopy(scenario)
-            sc2["tables"] = perturb_tables(scenario["tables"], scenario["cut"], scenario["pseed"])
+            sc2["tables"] = perturb_tables(scenario["tables"], scenario["cut"], scenario["pseed"], x_only=bool(scenario.get("x_only")))
             env2, *_ = xy.make_env(sc2)
             other = xy.run_episode(env2, scenario["actions"], np_seed=scenario["np_seed"])
         except Exception as e:
@@ -339,6 +348,8 @@ def execute_xy(scenario):
         probe("xy_feature_rows_stamped_nanoseconds_after_the_cut")
     if effective:
         probe("effective_perturbation")
+    if scenario.get("x_only") and effective and len(a) >= 2:
+        probe("xy_transformer_fitted_by_the_caller")
     if len(a) >= 2:
         probe("cut_in_middle")
     if scenario["kwargs"]["window"] > 1:
